@@ -1,8 +1,31 @@
+/-
+  C12 — pair selection proposes valid, distinct, useful pairs.
+  Property theorems about Model/Pairs.lean.  `Gen/Pairs.lean` is regenerated from the source on
+  every run; `C12_bridge_*` tie its kernels to the hand-written reference kernels `Pairs.ref` the
+  theorems are about.
+
+  Reading (DESIGN §4.0): generic positions — `d i i = 0 < d i j` and the entries of every row
+  distinct (`Generic`).  Oracles: `comp` (component id per minimum, any function — the theorems
+  hold for every `comp`, "connected" *means* equal ids), `sorted i` (any answer of argsort
+  satisfying `SortedPerm`).  The output lists are sets (their order comes out of a Python `set`):
+  the statements are about membership and `Nodup`.
+-/
 import TopSearch.Model.Pairs
 import TopSearch.Gen.Pairs
-import Mathlib.Tactic.Ring
+import Mathlib.Data.List.Sort
+import Mathlib.Data.List.Perm.Basic
+import Mathlib.Data.List.Nodup
+import Mathlib.Data.List.Range
+import Mathlib.Order.Basic
+import Mathlib.Order.Defs.LinearOrder
+
 namespace TopSearch.Props.C12
 open TopSearch TopSearch.Pairs
+
+set_option linter.unusedTactic false
+set_option linter.unreachableTactic false
+
+/-! ### bridge lemmas (tie #1) -/
 
 theorem kernels_ext {A B : Kernels}
     (h1 : ∀ N l, A.closestSlice N l = B.closestSlice N l)
@@ -39,4 +62,634 @@ theorem C12_bridge_dispatch (s : String) : Gen.Pairs.dispatch s = dispatchRef s 
   all_goals simp_all
 
 theorem C12_bridge_viaSet : Gen.Pairs.viaSet = true := by decide
+
+/-! ### definitions used in the statements -/
+
+section defs
+variable {α : Type} [LinearOrder α] [Zero α]
+
+/-- the contract of `np.argsort` on `row 0 … row (n-1)`: a permutation of the indices along which
+    the entries do not decrease -/
+def SortedPerm (row : Nat → α) (n : Nat) (p : List Nat) : Prop :=
+  p.Perm (List.range n) ∧ p.Pairwise (fun a b => row a ≤ row b)
+
+/-- generic positions: `d i i = 0 < d i j`, and the entries of every row are distinct -/
+def Generic (d : Nat → Nat → α) (n : Nat) : Prop :=
+  ∀ i, i < n → d i i = 0 ∧ (∀ j, j < n → j ≠ i → 0 < d i j) ∧
+    (∀ j k, j < n → k < n → j ≠ k → d i j ≠ d i k)
+
+/-- `j` is among the `N` closest *other* minima of `i`: fewer than `N` others are closer -/
+def NClosest (d : Nat → Nat → α) (n N i j : Nat) : Prop :=
+  j < n ∧ j ≠ i ∧ ((List.range n).filter (fun k => decide (k ≠ i ∧ d i k < d i j))).length < N
+
+/-- valid and distinct: as a list no pair occurs twice, every pair is `(a, b)` with `a < b < n`
+    (two different existing minima), and no unordered pair occurs in two different forms -/
+def Valid (n : Nat) (out : List Pair) : Prop :=
+  out.Nodup ∧ (∀ p ∈ out, p.1 < p.2 ∧ p.2 < n) ∧
+  ∀ p ∈ out, ∀ q ∈ out, ((p.1 = q.1 ∧ p.2 = q.2) ∨ (p.1 = q.2 ∧ p.2 = q.1)) → p = q
+
+end defs
+
+/-! ### helper lemmas -/
+
+@[simp] theorem ref_closestSlice (N : Nat) (l : List Nat) : ref.closestSlice N l = (l.drop 1).take N := rfl
+@[simp] theorem ref_nearestSlice (l : List Nat) : ref.nearestSlice l = l.drop 1 := rfl
+@[simp] theorem ref_cyclesSlice (c : Nat) (l : List Nat) : ref.cyclesSlice c l = l.take c := rfl
+@[simp] theorem ref_keepPair (p : Pair) : ref.keepPair p = (p != (0, 0)) := rfl
+@[simp] theorem ref_sortTuple : ref.sortTuple = true := rfl
+@[simp] theorem ref_filterInF : ref.filterInF = true := rfl
+
+theorem mem_dedup (l : List Pair) (p : Pair) : p ∈ dedup l ↔ p ∈ l := by
+  induction l with
+  | nil => simp [dedup]
+  | cons a t ih =>
+    simp only [dedup]
+    split
+    · rename_i h
+      have : a ∈ t := by simpa using h
+      rw [ih, List.mem_cons]
+      constructor
+      · exact Or.inr
+      · rintro (rfl | h') <;> assumption
+    · simp [ih]
+
+theorem nodup_dedup (l : List Pair) : (dedup l).Nodup := by
+  induction l with
+  | nil => simp [dedup]
+  | cons a t ih =>
+    simp only [dedup]
+    split
+    · exact ih
+    · rename_i h
+      have : a ∉ t := by simpa using h
+      exact List.nodup_cons.mpr ⟨fun h' => this ((mem_dedup t a).mp h'), ih⟩
+
+theorem sortPair_of_ne (i j : Nat) (h : j ≠ i) :
+    (sortPair (i, j)).1 < (sortPair (i, j)).2 ∧
+    ((sortPair (i, j)).1 = i ∧ (sortPair (i, j)).2 = j ∨ (sortPair (i, j)).1 = j ∧ (sortPair (i, j)).2 = i) := by
+  simp only [sortPair]
+  rcases Nat.lt_or_gt_of_ne h with h' | h'
+  · rw [Nat.min_eq_right h'.le, Nat.max_eq_left h'.le]; exact ⟨h', Or.inr ⟨rfl, rfl⟩⟩
+  · rw [Nat.min_eq_left h'.le, Nat.max_eq_right h'.le]; exact ⟨h', Or.inl ⟨rfl, rfl⟩⟩
+
+theorem sortPair_idem (p : Pair) : sortPair (sortPair p) = sortPair p := by
+  simp only [sortPair]
+  rw [Nat.min_eq_left (Nat.le_trans (Nat.min_le_left _ _) (Nat.le_max_left _ _)),
+    Nat.max_eq_right (Nat.le_trans (Nat.min_le_left _ _) (Nat.le_max_left _ _))]
+
+theorem sortPair_le (p : Pair) : (sortPair p).1 ≤ (sortPair p).2 :=
+  Nat.le_trans (Nat.min_le_left _ _) (Nat.le_max_left _ _)
+
+/-- membership in the result of `unique_pairs` -/
+theorem mem_uniquePairs (l : List Pair) (p : Pair) :
+    p ∈ uniquePairs ref l ↔ ∃ q ∈ l, q ≠ (0, 0) ∧ sortPair q = p := by
+  simp only [uniquePairs, ref_sortTuple, if_true, mem_dedup, List.mem_map, List.mem_filter, ref_keepPair,
+    bne_iff_ne, ne_eq]
+  constructor
+  · rintro ⟨q, ⟨h1, h2⟩, rfl⟩; exact ⟨q, h1, h2, rfl⟩
+  · rintro ⟨q, h1, h2, rfl⟩; exact ⟨q, ⟨h1, h2⟩, rfl⟩
+
+theorem nodup_uniquePairs (K : Kernels) (l : List Pair) : (uniquePairs K l).Nodup := nodup_dedup _
+
+/-- a list of sorted pairs with `a < b < n` and no repetition is `Valid` -/
+theorem valid_of (n : Nat) (out : List Pair) (hn : out.Nodup) (h : ∀ p ∈ out, p.1 < p.2 ∧ p.2 < n) :
+    Valid n out := by
+  refine ⟨hn, h, ?_⟩
+  intro p hp q hq hpq
+  have := h p hp; have := h q hq
+  rcases hpq with ⟨h1, h2⟩ | ⟨h1, h2⟩
+  · exact Prod.ext h1 h2
+  · omega
+
+section order
+variable {α : Type} [LinearOrder α] [Zero α]
+
+omit [Zero α] in
+/-- in a list sorted strictly along a key, the first `m` elements are those with fewer than `m`
+    elements of smaller key -/
+theorem mem_take_sorted (f : Nat → α) (t : List Nat) (ht : t.Pairwise (fun a b => f a < f b)) (m x : Nat) :
+    x ∈ t.take m ↔ x ∈ t ∧ t.countP (fun k => decide (f k < f x)) < m := by
+  induction t generalizing m with
+  | nil => simp
+  | cons a t ih =>
+    obtain ⟨ha, ht'⟩ := List.pairwise_cons.mp ht
+    cases m with
+    | zero => simp
+    | succ m =>
+      rw [List.take_succ_cons, List.mem_cons, List.mem_cons, List.countP_cons, ih ht']
+      constructor
+      · rintro (rfl | ⟨hx, hc⟩)
+        · refine ⟨Or.inl rfl, ?_⟩
+          have : t.countP (fun k => decide (f k < f x)) = 0 := by
+            rw [List.countP_eq_zero]
+            intro b hb
+            simpa using (ha b hb).le
+          simp [this]
+        · refine ⟨Or.inr hx, ?_⟩
+          simp only [decide_eq_true_eq, ha x hx, if_true]
+          omega
+      · rintro ⟨rfl | hx, hc⟩
+        · exact Or.inl rfl
+        · right
+          refine ⟨hx, ?_⟩
+          simp only [decide_eq_true_eq, ha x hx, if_true] at hc
+          omega
+
+/-- under generic positions an argsorted row is `i` followed by the other indices in strictly
+    increasing distance -/
+theorem sorted_head_tail (d : Nat → Nat → α) (n : Nat) (hg : Generic d n) (i : Nat) (hi : i < n)
+    (p : List Nat) (hp : SortedPerm (d i) n p) :
+    ∃ t, p = i :: t ∧ t.Pairwise (fun a b => d i a < d i b) ∧ t.Perm ((List.range n).erase i) ∧
+      (∀ x, x ∈ t ↔ x < n ∧ x ≠ i) := by
+  obtain ⟨hperm, hsort⟩ := hp
+  obtain ⟨h0, hpos, hdist⟩ := hg i hi
+  have hmem : ∀ x, x ∈ p ↔ x < n := fun x => by rw [hperm.mem_iff, List.mem_range]
+  have hnd : p.Nodup := hperm.nodup_iff.mpr List.nodup_range
+  have hstrict : p.Pairwise (fun a b => d i a < d i b) := by
+    have := hsort.and hnd
+    refine this.imp_of_mem ?_
+    intro a b ha hb hab
+    exact lt_of_le_of_ne hab.1 (hdist a b ((hmem a).mp ha) ((hmem b).mp hb) hab.2)
+  cases p with
+  | nil => exact absurd ((hmem i).mpr hi) (by simp)
+  | cons h t =>
+    obtain ⟨hh, ht⟩ := List.pairwise_cons.mp hstrict
+    have hhi : h = i := by
+      by_contra hne
+      have hit : i ∈ t := by
+        rcases List.mem_cons.mp ((hmem i).mpr hi) with e | e
+        · exact absurd e.symm hne
+        · exact e
+      have h1 := hh i hit
+      have h2 := hpos h ((hmem h).mp (List.mem_cons_self)) hne
+      rw [h0] at h1
+      exact absurd h1 (not_lt.mpr h2.le)
+    subst hhi
+    have hnt : h ∉ t := (List.nodup_cons.mp hnd).1
+    refine ⟨t, rfl, ht, ?_, ?_⟩
+    · have := hperm.erase h
+      simpa using this
+    · intro x
+      constructor
+      · intro hx
+        exact ⟨(hmem x).mp (List.mem_cons_of_mem _ hx), fun e => hnt (e ▸ hx)⟩
+      · rintro ⟨hx, hne⟩
+        rcases List.mem_cons.mp ((hmem x).mpr hx) with e | e
+        · exact absurd e hne
+        · exact e
+
+omit [Zero α] in
+/-- the count of closer others, computed along the sorted tail -/
+theorem countP_tail (d : Nat → Nat → α) (n i : Nat) (t : List Nat)
+    (ht : t.Perm ((List.range n).erase i)) (x : Nat) :
+    t.countP (fun k => decide (d i k < d i x)) =
+      ((List.range n).filter (fun k => decide (k ≠ i ∧ d i k < d i x))).length := by
+  rw [ht.countP_eq, List.nodup_range.erase_eq_filter, List.countP_filter, List.countP_eq_length_filter]
+  congr 1
+  apply List.filter_congr
+  intro k _
+  by_cases h1 : k = i <;> by_cases h2 : d i k < d i x <;> simp [h1, h2]
+
+end order
+
+
+/-! ### the oracles' reference implementations -/
+
+section oracles
+variable {α : Type} [LinearOrder α]
+
+/-- the model's own argsort (merge sort of the indices) satisfies the argsort contract -/
+theorem C12_argsort_contract (row : Nat → α) (n : Nat) : SortedPerm row n (argsort row n) := by
+  refine ⟨List.mergeSort_perm _ _, ?_⟩
+  have := List.pairwise_mergeSort (le := fun a b => decide (row a ≤ row b))
+    (by intro a b c; simpa using le_trans)
+    (by intro a b; simpa using le_total (row a) (row b)) (List.range n)
+  simpa [argsort] using this
+
+/-- when the entries of the row are distinct the contract has exactly one solution: whatever
+    `np.argsort` answers (stable or not) is the model's `argsort` -/
+theorem C12_argsort_unique (row : Nat → α) (n : Nat)
+    (hd : ∀ j k, j < n → k < n → j ≠ k → row j ≠ row k) (p : List Nat) (hp : SortedPerm row n p) :
+    p = argsort row n := by
+  obtain ⟨hperm, hsort⟩ := hp
+  obtain ⟨hperm', hsort'⟩ := C12_argsort_contract row n
+  refine List.Perm.eq_of_pairwise ?_ hsort hsort' (hperm.trans hperm'.symm)
+  intro a b ha _ hab hba
+  by_contra hne
+  have ha' : a < n := List.mem_range.mp (hperm.mem_iff.mp ha)
+  have hb' : b < n := by
+    have : b ∈ p := by
+      rw [hperm.mem_iff, ← hperm'.mem_iff]; assumption
+    exact List.mem_range.mp (hperm.mem_iff.mp this)
+  exact hd a b ha' hb' hne (le_antisymm hab hba)
+
+theorem argminFrom_spec (t : List α) (pre : List α) (best : Nat) (bv : α)
+    (hb : pre[best]? = some bv) (hmin : ∀ w ∈ pre, bv ≤ w)
+    (hfirst : ∀ k w, k < best → pre[k]? = some w → bv < w) :
+    ∃ v, (pre ++ t)[argminFrom t pre.length best bv]? = some v ∧ (∀ w ∈ pre ++ t, v ≤ w) ∧
+      ∀ k w, k < argminFrom t pre.length best bv → (pre ++ t)[k]? = some w → v < w := by
+  induction t generalizing pre best bv with
+  | nil =>
+    simp only [argminFrom, List.append_nil]
+    exact ⟨bv, hb, hmin, hfirst⟩
+  | cons x t ih =>
+    have hbl : best < pre.length := by
+      by_contra h
+      rw [List.getElem?_eq_none (not_lt.mp h)] at hb
+      exact absurd hb (by simp)
+    simp only [argminFrom]
+    split
+    · rename_i hx
+      have := ih (pre ++ [x]) pre.length x (by simp)
+        (by
+          intro w hw
+          rcases List.mem_append.mp hw with h | h
+          · exact (lt_of_lt_of_le hx (hmin w h)).le
+          · simp at h; exact h ▸ le_refl _)
+        (by
+          intro k w hk hkw
+          rw [List.getElem?_append_left hk] at hkw
+          exact lt_of_lt_of_le hx (hmin w (List.mem_of_getElem? hkw)))
+      simpa using this
+    · rename_i hx
+      have := ih (pre ++ [x]) best bv
+        (by rw [List.getElem?_append_left hbl]; exact hb)
+        (by
+          intro w hw
+          rcases List.mem_append.mp hw with h | h
+          · exact hmin w h
+          · simp at h; exact h ▸ not_lt.mp hx)
+        (by
+          intro k w hk hkw
+          rw [List.getElem?_append_left (lt_trans hk hbl)] at hkw
+          exact hfirst k w hk hkw)
+      simpa using this
+
+/-- `np.argmin` as modelled picks a global minimum of the energies — the first one: its entry is
+    `≤` every entry and `<` every earlier entry -/
+theorem C12_gmin_is_global_minimum (es : List α) (hne : es ≠ []) :
+    argmin es < es.length ∧
+    ∃ v, es[argmin es]? = some v ∧ (∀ w ∈ es, v ≤ w) ∧ ∀ k w, k < argmin es → es[k]? = some w → v < w := by
+  cases es with
+  | nil => exact absurd rfl hne
+  | cons x t =>
+    have := argminFrom_spec t [x] 0 x (by simp) (by simp) (by simp)
+    simp only [List.length_singleton, List.singleton_append] at this
+    obtain ⟨v, h1, h2, h3⟩ := this
+    refine ⟨?_, v, h1, h2, h3⟩
+    by_contra h
+    rw [argmin, List.getElem?_eq_none (not_lt.mp h)] at h1
+    exact absurd h1 (by simp)
+
+end oracles
+
+/-! ### the property -/
+
+section props
+variable {α : Type} [LinearOrder α] [Zero α]
+
+/-- the raw proposals of `closest_enumeration`, before `unique_pairs` -/
+theorem mem_closest_raw (d : Nat → Nat → α) (n N : Nat) (hg : Generic d n) (sorted : Nat → List Nat)
+    (hs : ∀ i, i < n → SortedPerm (d i) n (sorted i)) (q : Pair) :
+    q ∈ ((List.range n).flatMap fun i => (ref.closestSlice N (sorted i)).map fun j => (i, j)) ↔
+      q.1 < n ∧ NClosest d n N q.1 q.2 := by
+  simp only [List.mem_flatMap, List.mem_range, List.mem_map, ref_closestSlice]
+  constructor
+  · rintro ⟨i, hi, j, hj, rfl⟩
+    obtain ⟨t, ht, hsort, hperm, hmem⟩ := sorted_head_tail d n hg i hi (sorted i) (hs i hi)
+    rw [ht, List.drop_one, List.tail_cons, mem_take_sorted (d i) t hsort, countP_tail d n i t hperm] at hj
+    exact ⟨hi, ((hmem j).mp hj.1).1, ((hmem j).mp hj.1).2, hj.2⟩
+  · rintro ⟨hi, hj1, hj2, hj3⟩
+    obtain ⟨t, ht, hsort, hperm, hmem⟩ := sorted_head_tail d n hg q.1 hi (sorted q.1) (hs q.1 hi)
+    refine ⟨q.1, hi, q.2, ?_, rfl⟩
+    rw [ht, List.drop_one, List.tail_cons, mem_take_sorted (d q.1) t hsort, countP_tail d n q.1 t hperm]
+    exact ⟨(hmem q.2).mpr ⟨hj1, hj2⟩, hj3⟩
+
+/-- Nearest-neighbour enumeration proposes, for each minimum, exactly its `N` closest other
+    minima: the proposed set is `⋃ᵢ { {i, j} : j among the N closest others of i }` (each unordered
+    pair in its sorted form, once). -/
+theorem C12_closest_exact (d : Nat → Nat → α) (n N : Nat) (hg : Generic d n) (sorted : Nat → List Nat)
+    (hs : ∀ i, i < n → SortedPerm (d i) n (sorted i)) (p : Pair) :
+    p ∈ closestEnumeration ref n N sorted ↔ ∃ i j, i < n ∧ NClosest d n N i j ∧ p = sortPair (i, j) := by
+  unfold closestEnumeration
+  rw [mem_uniquePairs]
+  constructor
+  · rintro ⟨q, hq, _, rfl⟩
+    obtain ⟨h1, h2⟩ := (mem_closest_raw d n N hg sorted hs q).mp hq
+    exact ⟨q.1, q.2, h1, h2, rfl⟩
+  · rintro ⟨i, j, hi, hj, rfl⟩
+    refine ⟨(i, j), (mem_closest_raw d n N hg sorted hs (i, j)).mpr ⟨hi, hj⟩, ?_, rfl⟩
+    intro h
+    have := hj.2.1
+    simp only [Prod.mk.injEq] at h
+    omega
+
+/-- Under generic positions no self-pair is ever generated (the first entry of an argsorted row is
+    the minimum itself and is sliced off), so the filter `i != [0, 0]` of `unique_pairs` removes
+    nothing.  NB the filter is not a self-pair filter: it drops the literal pair `[0, 0]` only
+    (see the `example` below: `[3, 3]` survives). -/
+theorem C12_no_self_pairs_filter_inert (d : Nat → Nat → α) (n N : Nat) (hg : Generic d n)
+    (sorted : Nat → List Nat) (hs : ∀ i, i < n → SortedPerm (d i) n (sorted i)) (q : Pair)
+    (hq : q ∈ ((List.range n).flatMap fun i => (ref.closestSlice N (sorted i)).map fun j => (i, j))) :
+    q.1 ≠ q.2 ∧ ref.keepPair q = true := by
+  obtain ⟨_, h2⟩ := (mem_closest_raw d n N hg sorted hs q).mp hq
+  have := h2.2.1
+  refine ⟨fun h => this h.symm, ?_⟩
+  simp only [ref_keepPair, bne_iff_ne, ne_eq]
+  intro h
+  rw [h] at this
+  exact this rfl
+
+/-- membership in the result of `connect_to_set` for a node whose argsorted row starts with itself -/
+theorem mem_connectToSet (n : Nat) (comp : Nat → Nat) (i : Nat) (t : List Nat) (N : Nat) (p : Pair) :
+    p ∈ connectToSet ref n comp (i :: t) i N ↔
+      ∃ j ∈ (t.filter fun k => decide (k < n ∧ comp k ≠ comp i)).take N, p = sortPair (i, j) := by
+  have hF : ∀ k, ((List.range n).filter fun k => !(comp k == comp i)).contains k =
+      decide (k < n ∧ comp k ≠ comp i) := by
+    intro k
+    by_cases h1 : k < n <;> by_cases h2 : comp k = comp i <;> simp [h1, h2]
+  simp only [connectToSet, ref_filterInF, if_true, ref_nearestSlice, ref_cyclesSlice, List.drop_one,
+    List.tail_cons, hF]
+  split
+  · rename_i hempty
+    constructor
+    · simp
+    · rintro ⟨j, hj, _⟩
+      have hj' := List.mem_of_mem_take hj
+      simp only [List.mem_filter, decide_eq_true_eq] at hj'
+      have : j ∈ (List.range n).filter fun k => !(comp k == comp i) := by
+        simp [hj'.2.1, hj'.2.2]
+      rw [List.isEmpty_iff] at hempty
+      rw [hempty] at this
+      simp at this
+  · rw [mem_uniquePairs]
+    constructor
+    · rintro ⟨q, hq, _, rfl⟩
+      obtain ⟨j, hj, rfl⟩ := List.mem_map.mp hq
+      exact ⟨j, hj, rfl⟩
+    · rintro ⟨j, hj, rfl⟩
+      refine ⟨(i, j), List.mem_map.mpr ⟨j, hj, rfl⟩, ?_, rfl⟩
+      have hj' := List.mem_of_mem_take hj
+      simp only [List.mem_filter, decide_eq_true_eq] at hj'
+      intro h
+      simp only [Prod.mk.injEq] at h
+      exact hj'.2.2 (by rw [h.1, h.2])
+
+/-- membership in the result of `connect_unconnected`, for argsorted rows that start with the
+    minimum itself -/
+theorem mem_connectUnconnected (n gmin : Nat) (comp : Nat → Nat) (sorted : Nat → List Nat) (N : Nat)
+    (hhead : ∀ i, i < n → ∃ t, sorted i = i :: t) (p : Pair) :
+    p ∈ connectUnconnected ref n gmin comp sorted N ↔
+      ∃ i j, i < n ∧ comp i ≠ comp gmin ∧
+        j ∈ (((sorted i).drop 1).filter fun k => decide (k < n ∧ comp k ≠ comp i)).take N ∧
+        p = sortPair (i, j) := by
+  unfold connectUnconnected
+  split
+  · rename_i h0
+    have : n = 0 := by simpa using h0
+    subst this
+    simp
+  · rw [mem_uniquePairs]
+    simp only [unconnectedComponent, List.mem_flatMap, List.mem_filter, List.mem_range, bne_iff_ne, ne_eq]
+    constructor
+    · rintro ⟨q, ⟨i, ⟨hi, hc⟩, hq⟩, _, rfl⟩
+      obtain ⟨t, ht⟩ := hhead i hi
+      rw [ht, mem_connectToSet] at hq
+      obtain ⟨j, hj, rfl⟩ := hq
+      refine ⟨i, j, hi, hc, ?_, (sortPair_idem _)⟩
+      rw [ht]; simpa using hj
+    · rintro ⟨i, j, hi, hc, hj, rfl⟩
+      obtain ⟨t, ht⟩ := hhead i hi
+      refine ⟨sortPair (i, j), ⟨i, ⟨hi, hc⟩, ?_⟩, ?_, sortPair_idem _⟩
+      · rw [ht, mem_connectToSet]
+        refine ⟨j, ?_, rfl⟩
+        rw [ht] at hj; simpa using hj
+      · have hj' := List.mem_of_mem_take hj
+        simp only [List.mem_filter, decide_eq_true_eq] at hj'
+        have hne : j ≠ i := fun e => hj'.2.2 (by rw [e])
+        have := (sortPair_of_ne i j hne).1
+        intro h
+        rw [h] at this
+        exact absurd this (by simp)
+
+/-- the rows start with the minimum itself (a consequence of generic positions) -/
+theorem head_of_generic (d : Nat → Nat → α) (n : Nat) (hg : Generic d n) (sorted : Nat → List Nat)
+    (hs : ∀ i, i < n → SortedPerm (d i) n (sorted i)) : ∀ i, i < n → ∃ t, sorted i = i :: t := by
+  intro i hi
+  obtain ⟨t, ht, _⟩ := sorted_head_tail d n hg i hi (sorted i) (hs i hi)
+  exact ⟨t, ht⟩
+
+/-- The connect-unconnected scheme proposes only pairs lying in different connected components
+    (and both ends exist, and one end is outside the global minimum's component). -/
+theorem C12_bridge_only (d : Nat → Nat → α) (n gmin N : Nat) (hg : Generic d n) (comp : Nat → Nat)
+    (sorted : Nat → List Nat) (hs : ∀ i, i < n → SortedPerm (d i) n (sorted i)) (p : Pair)
+    (hp : p ∈ connectUnconnected ref n gmin comp sorted N) :
+    comp p.1 ≠ comp p.2 ∧ p.1 < p.2 ∧ p.2 < n ∧ (comp p.1 ≠ comp gmin ∨ comp p.2 ≠ comp gmin) := by
+  obtain ⟨i, j, hi, hc, hj, rfl⟩ :=
+    (mem_connectUnconnected n gmin comp sorted N (head_of_generic d n hg sorted hs) p).mp hp
+  have hj' := List.mem_of_mem_take hj
+  simp only [List.mem_filter, decide_eq_true_eq] at hj'
+  have hne : j ≠ i := fun e => hj'.2.2 (by rw [e])
+  obtain ⟨hlt, h | h⟩ := sortPair_of_ne i j hne
+  · rw [h.1, h.2] at hlt ⊢
+    exact ⟨fun e => hj'.2.2 e.symm, hlt, hj'.2.1, Or.inl hc⟩
+  · rw [h.1, h.2] at hlt ⊢
+    exact ⟨hj'.2.2, hlt, hi, Or.inr hc⟩
+
+/-- for a minimum outside the global minimum's component the nearest minimum outside its own
+    component exists and its pair is proposed -/
+theorem nearest_outside_proposed (d : Nat → Nat → α) (n gmin N : Nat) (hN : 1 ≤ N) (hg : Generic d n)
+    (comp : Nat → Nat) (sorted : Nat → List Nat) (hs : ∀ i, i < n → SortedPerm (d i) n (sorted i))
+    (hgm : gmin < n) (i : Nat) (hi : i < n) (hc : comp i ≠ comp gmin) :
+    ∃ h, h < n ∧ comp h ≠ comp i ∧ (∀ k, k < n → comp k ≠ comp i → d i h ≤ d i k) ∧
+      sortPair (i, h) ∈ connectUnconnected ref n gmin comp sorted N := by
+  obtain ⟨t, ht, hsort, _, hmem⟩ := sorted_head_tail d n hg i hi (sorted i) (hs i hi)
+  have hgt : gmin ∈ t.filter fun k => decide (k < n ∧ comp k ≠ comp i) := by
+    simp only [List.mem_filter, decide_eq_true_eq]
+    exact ⟨(hmem gmin).mpr ⟨hgm, fun e => hc (by rw [e])⟩, hgm, fun e => hc e.symm⟩
+  have hsortL := hsort.filter (fun k => decide (k < n ∧ comp k ≠ comp i))
+  cases hL : t.filter fun k => decide (k < n ∧ comp k ≠ comp i) with
+  | nil => rw [hL] at hgt; simp at hgt
+  | cons h L =>
+    rw [hL] at hsortL
+    have hh : h ∈ t.filter fun k => decide (k < n ∧ comp k ≠ comp i) := by rw [hL]; simp
+    simp only [List.mem_filter, decide_eq_true_eq] at hh
+    refine ⟨h, hh.2.1, hh.2.2, ?_, ?_⟩
+    · intro k hk hkc
+      have hkL : k ∈ h :: L := by
+        rw [← hL]
+        simp only [List.mem_filter, decide_eq_true_eq]
+        exact ⟨(hmem k).mpr ⟨hk, fun e => hkc (by rw [e])⟩, hk, hkc⟩
+      rcases List.mem_cons.mp hkL with rfl | hkL
+      · exact le_refl _
+      · exact ((List.pairwise_cons.mp hsortL).1 k hkL).le
+    · rw [mem_connectUnconnected n gmin comp sorted N (head_of_generic d n hg sorted hs)]
+      refine ⟨i, h, hi, hc, ?_, rfl⟩
+      rw [ht, List.drop_one, List.tail_cons, hL]
+      obtain ⟨N', rfl⟩ : ∃ N', N = N' + 1 := ⟨N - 1, by omega⟩
+      simp
+
+/-- For every minimum `i` outside the global minimum's component, the pair `{i, j}` with `j` its
+    closest minimum outside its own component is proposed (for every `N ≥ 1`). -/
+theorem C12_bridge_complete (d : Nat → Nat → α) (n gmin N : Nat) (hN : 1 ≤ N) (hg : Generic d n)
+    (comp : Nat → Nat) (sorted : Nat → List Nat) (hs : ∀ i, i < n → SortedPerm (d i) n (sorted i))
+    (hgm : gmin < n) (i : Nat) (hi : i < n) (hc : comp i ≠ comp gmin)
+    (j : Nat) (hj : j < n) (hjc : comp j ≠ comp i) (hnear : ∀ k, k < n → comp k ≠ comp i → d i j ≤ d i k) :
+    sortPair (i, j) ∈ connectUnconnected ref n gmin comp sorted N := by
+  obtain ⟨h, hh, hhc, hhmin, hmem⟩ := nearest_outside_proposed d n gmin N hN hg comp sorted hs hgm i hi hc
+  have heq : d i j = d i h := le_antisymm (hnear h hh hhc) (hhmin j hj hjc)
+  have : j = h := by
+    by_contra hne
+    exact (hg i hi).2.2 j h hj hh hne heq
+  rw [this]; exact hmem
+
+/-- The scheme proposes nothing exactly when the network is already connected (every minimum is in
+    the global minimum's component; for `n = 0` both sides hold trivially). -/
+theorem C12_empty_iff_connected (d : Nat → Nat → α) (n gmin N : Nat) (hN : 1 ≤ N) (hg : Generic d n)
+    (comp : Nat → Nat) (sorted : Nat → List Nat) (hs : ∀ i, i < n → SortedPerm (d i) n (sorted i))
+    (hgm : 0 < n → gmin < n) :
+    connectUnconnected ref n gmin comp sorted N = [] ↔ ∀ i, i < n → comp i = comp gmin := by
+  constructor
+  · intro hempty i hi
+    by_contra hc
+    obtain ⟨h, _, _, _, hmem⟩ :=
+      nearest_outside_proposed d n gmin N hN hg comp sorted hs (hgm (by omega)) i hi hc
+    rw [hempty] at hmem
+    simp at hmem
+  · intro hall
+    rw [List.eq_nil_iff_forall_not_mem]
+    intro p hp
+    obtain ⟨i, j, hi, hc, _⟩ :=
+      (mem_connectUnconnected n gmin comp sorted N (head_of_generic d n hg sorted hs) p).mp hp
+    exact hc (hall i hi)
+
+/-- … and "every minimum is in the global minimum's component" is "any two minima are connected" -/
+theorem connected_iff (n gmin : Nat) (comp : Nat → Nat) (hgm : 0 < n → gmin < n) :
+    (∀ i, i < n → comp i = comp gmin) ↔ ∀ i j, i < n → j < n → comp i = comp j := by
+  constructor
+  · intro h i j hi hj; rw [h i hi, h j hj]
+  · intro h i hi; exact h i gmin hi (hgm (by omega))
+
+/-- Every pair proposed by `closest_enumeration` and by `connect_unconnected` names two different
+    existing minima (`a < b < n`), and no unordered pair is proposed twice. -/
+theorem C12_valid_distinct (d : Nat → Nat → α) (n gmin N : Nat) (hg : Generic d n) (comp : Nat → Nat)
+    (sorted : Nat → List Nat) (hs : ∀ i, i < n → SortedPerm (d i) n (sorted i)) :
+    Valid n (closestEnumeration ref n N sorted) ∧ Valid n (connectUnconnected ref n gmin comp sorted N) := by
+  constructor
+  · refine valid_of n _ (nodup_uniquePairs _ _) ?_
+    intro p hp
+    obtain ⟨i, j, hi, hj, rfl⟩ := (C12_closest_exact d n N hg sorted hs p).mp hp
+    obtain ⟨hlt, h | h⟩ := sortPair_of_ne i j hj.2.1
+    · rw [h.1, h.2] at hlt ⊢; exact ⟨hlt, hj.1⟩
+    · rw [h.1, h.2] at hlt ⊢; exact ⟨hlt, hi⟩
+  · refine valid_of n _ ?_ ?_
+    · unfold connectUnconnected; split
+      · exact List.nodup_nil
+      · exact nodup_uniquePairs _ _
+    · intro p hp
+      have := C12_bridge_only d n gmin N hg comp sorted hs p hp
+      exact ⟨this.2.1, this.2.2.1⟩
+
+/-- `read_pairs` (`ReadPairs`): the rows of the file other than the literal `0 0`, each unordered
+    pair once, in sorted form.  (What the file names is the user's business: a row `k k` with
+    `k ≠ 0` or an index `≥ n` passes through — only the two computed schemes are covered by
+    `C12_valid_distinct`.) -/
+theorem C12_read_pairs_distinct (file : List Pair) :
+    (readPairs ref file).Nodup ∧
+    (∀ p, p ∈ readPairs ref file ↔ ∃ q ∈ file, q ≠ (0, 0) ∧ sortPair q = p) ∧
+    (∀ p ∈ readPairs ref file, p.1 ≤ p.2) ∧
+    ∀ p ∈ readPairs ref file, ∀ q ∈ readPairs ref file,
+      ((p.1 = q.1 ∧ p.2 = q.2) ∨ (p.1 = q.2 ∧ p.2 = q.1)) → p = q := by
+  have hle : ∀ p ∈ readPairs ref file, p.1 ≤ p.2 := by
+    intro p hp
+    obtain ⟨q, _, _, rfl⟩ := (mem_uniquePairs file p).mp hp
+    exact sortPair_le q
+  refine ⟨nodup_uniquePairs _ _, mem_uniquePairs file, hle, ?_⟩
+  intro p hp q hq hpq
+  have := hle p hp; have := hle q hq
+  rcases hpq with ⟨h1, h2⟩ | ⟨h1, h2⟩
+  · exact Prod.ext h1 h2
+  · exact Prod.ext (by omega) (by omega)
+
+/-- `NetworkSampling.select_minima` with the regenerated kernels and dispatch: the three scheme
+    strings select the three selectors (anything else assigns nothing — the code raises), and the
+    two computed schemes return valid, distinct pairs. -/
+theorem C12_select_minima (d : Nat → Nat → α) (n gmin N : Nat) (hg : Generic d n) (comp : Nat → Nat)
+    (sorted : Nat → List Nat) (hs : ∀ i, i < n → SortedPerm (d i) n (sorted i)) (file : List Pair)
+    (option : String) :
+    (option = "ClosestEnumeration" ∧
+      selectMinima Gen.Pairs.kernels Gen.Pairs.dispatch option n gmin comp sorted file N =
+        some (closestEnumeration ref n N sorted) ∧ Valid n (closestEnumeration ref n N sorted)) ∨
+    (option = "ConnectUnconnected" ∧
+      selectMinima Gen.Pairs.kernels Gen.Pairs.dispatch option n gmin comp sorted file N =
+        some (connectUnconnected ref n gmin comp sorted N) ∧
+        Valid n (connectUnconnected ref n gmin comp sorted N)) ∨
+    (option = "ReadPairs" ∧
+      selectMinima Gen.Pairs.kernels Gen.Pairs.dispatch option n gmin comp sorted file N =
+        some (readPairs ref file)) ∨
+    (option ≠ "ClosestEnumeration" ∧ option ≠ "ConnectUnconnected" ∧ option ≠ "ReadPairs" ∧
+      selectMinima Gen.Pairs.kernels Gen.Pairs.dispatch option n gmin comp sorted file N = none) := by
+  have hv := C12_valid_distinct d n gmin N hg comp sorted hs
+  have hd : Gen.Pairs.dispatch = dispatchRef := funext C12_bridge_dispatch
+  rw [C12_bridge_kernels, hd]
+  unfold selectMinima dispatchRef
+  by_cases h1 : option = "ClosestEnumeration"
+  · left; subst h1; exact ⟨rfl, by simp, hv.1⟩
+  · by_cases h2 : option = "ConnectUnconnected"
+    · right; left; subst h2; exact ⟨rfl, by simp, hv.2⟩
+    · by_cases h3 : option = "ReadPairs"
+      · right; right; left; subst h3; exact ⟨rfl, by simp⟩
+      · right; right; right
+        refine ⟨h1, h2, h3, ?_⟩
+        simp [h1, h2, h3]
+
+end props
+
+/-! ### non-vacuity -/
+
+/-- four minima on a line at 0, 1, 3, 7 (squared distances): generic; 0–1 connected, 2 and 3
+    isolated, global minimum 1.  The model's own argsort satisfies the contract, the closest
+    enumeration with N = 1 is {0,1},{1,2},{2,3}, the bridge scheme proposes {1,2},{2,3}. -/
+example :
+    let d : Nat → Nat → Int := fun i j => (([0, 1, 3, 7].getD i 0 : Int) - [0, 1, 3, 7].getD j 0) ^ 2
+    let comp : Nat → Nat := fun k => [0, 0, 1, 2].getD k 0
+    genericB d 4 = true ∧
+    canon (closestEnumeration ref 4 1 (fun i => argsort (d i) 4)) = [(0, 1), (1, 2), (2, 3)] ∧
+    canon (connectUnconnected ref 4 1 comp (fun i => argsort (d i) 4) 1) = [(1, 2), (2, 3)] := by
+  decide +kernel
+
+/-- the `[0, 0]` filter drops the literal pair `[0, 0]` and nothing else: the self-pair `[3, 3]`
+    survives, `[1, 0]` and `[0, 1]` are one pair -/
+example : uniquePairs ref [(0, 0), (3, 3), (1, 0), (0, 1)] = [(3, 3), (0, 1)] := by decide
+
+/-- `genericB` decides `Generic` (so the driver's guard is the theorems' hypothesis) -/
+theorem genericB_iff {α : Type} [LinearOrder α] [Zero α] (d : Nat → Nat → α) (n : Nat) :
+    genericB d n = true ↔ Generic d n := by
+  simp only [genericB, Generic, List.all_eq_true, List.mem_range, Bool.and_eq_true, decide_eq_true_eq,
+    Bool.or_eq_true, beq_iff_eq, ne_eq]
+  constructor
+  · intro h i hi
+    obtain ⟨h0, h1⟩ := h i hi
+    refine ⟨h0, ?_, ?_⟩
+    · intro j hj hne
+      rcases (h1 j hj).1 with e | e
+      · exact absurd e hne
+      · exact e
+    · intro j k hj hk hne
+      rcases (h1 j hj).2 k hk with e | e
+      · exact absurd e hne
+      · exact e
+  · intro h i hi
+    obtain ⟨h0, h1, h2⟩ := h i hi
+    refine ⟨h0, ?_⟩
+    intro j hj
+    refine ⟨?_, ?_⟩
+    · by_cases e : j = i
+      · exact Or.inl e
+      · exact Or.inr (h1 j hj e)
+    · intro k hk
+      by_cases e : j = k
+      · exact Or.inl e
+      · exact Or.inr (h2 j k hj hk e)
+
 end TopSearch.Props.C12
